@@ -62,5 +62,20 @@ Definition nest_ok (n : list lkind * lkind) : bool :=
   end.
 Definition lock_order_ok : bool := forallb (fun m => forallb nest_ok (snd m)) lock_nests.
 
+(* persisted algorithm state: a method that takes the operation lock (SuggestTrials, CheckTrialEarlyStoppingState) hands the
+   study it loads - with the algorithm's stored state in its metadata - to Pythia and writes Pythia's metadata delta back; that
+   load and that write-back are both made under the operation lock, so two such calls cannot both start from the same stored
+   state (the immutability guard is a method of its own and feeds nothing) *)
+Definition takes_op_lock (sites : list (dsm * list lkind)) : bool := existsb (fun s => holds KOp (snd s)) sites.
+Definition is_load_or_md (d : dsm) : bool := match d with DLoadStudy | DUpdateMd => true | _ => false end.
+Definition algo_state_ok (sites : list (dsm * list lkind)) : bool :=
+  if takes_op_lock sites then forallb (fun s => if is_load_or_md (fst s) then holds KOp (snd s) else true) sites else true.
+Definition algorithm_state_under_op_lock : bool := forallb (fun m => algo_state_ok (snd (fst m))) call_sites.
+(* non-vacuity: the table does contain such methods *)
+Definition methods_taking_op_lock : list string :=
+  map (fun m => fst (fst m)) (filter (fun m => takes_op_lock (snd (fst m))) call_sites).
+
+Definition expected_op_lock_methods : list string := ["SuggestTrials"; "CheckTrialEarlyStoppingState"]%string.
+
 (* the only datastore access outside every lock that precedes a write is the immutability guard (known finding) *)
 Definition methods_listed : list string := map (fun m => fst (fst m)) call_sites.
